@@ -1,5 +1,6 @@
 import ShootVerif.Model.Transfer
 import ShootVerif.Model.Ctor
+import ShootVerif.Model.MapSort
 /-
 Model of `shoot map` (internal/mapper): fields.go (extractTopFiels, expandIfStruct,
 extractStructFields, appendOrReplace, tag map), match.go (canNameMatch, smartMatch, matchType,
@@ -367,7 +368,9 @@ def litParamMap (pre : List String) : Ctor.Lit → List (String × String × Lis
   | .nil => []
   | .kv n (.param p) rest => (p, n, pre ++ [n]) :: litParamMap pre rest
   | .kv _ (.defx _) rest => litParamMap pre rest
-  | .sub n _ _ body rest => litParamMap (pre ++ [n]) body ++ litParamMap pre rest
+  -- `Base: &Base{…}` is a unary expression: extractFromCompositeLit (ctor.go:243) only descends into a
+  -- plain composite literal, so the parameters of a POINTER-embedded struct are not recovered
+  | .sub n _ isPtr body rest => (if isPtr then [] else litParamMap (pre ++ [n]) body) ++ litParamMap pre rest
 
 /-- directive semantics of `shoot new -getset` on an unexported field: no directive or both ⇒ both -/
 def FDecl.hasGet (f : FDecl) : Bool := !isExported f.name && (f.get || !f.set)
@@ -378,11 +381,16 @@ def newView (t : Tree) : NewView :=
   let g := Ctor.gen (ctorTreeOf t)
   let pm := litParamMap [] g.body
   let tyOf := fun (n : String) => ((ds.find? (fun d => d.name == n)).map (·.ty)).getD (.basic "int")
-  let params := g.params.filterMap (fun (pn, _) =>
-    (pm.reverse.find? (fun e => e.1 == pn)).map (fun e =>
+  let params := g.params.map (fun (pn, _) =>
+    match pm.reverse.find? (fun e => e.1 == pn) with
+    | some e =>
       let fname := e.2.1
-      { name := if isExported fname then fname else "Set" ++ pascalS fname,
-        backing := fname, path := e.2.2, ty := tyOf fname : Field }))
+      ({ name := if isExported fname then fname else "Set" ++ pascalS fname,
+         backing := fname, path := e.2.2, ty := tyOf fname } : Field)
+    | none =>
+      -- an unrecovered parameter: `nameMap[pname]` is the zero value, the pseudo-name is "Set" + ""
+      ({ name := "Set", backing := "", path := [],
+         ty := ((ds.find? (fun d => camelS d.name == pn)).map (·.ty)).getD (.basic "int") } : Field))
   let gs := sortStrs ((ds.filter FDecl.hasGet).map (fun d => pascalS d.name))
   let ss := sortStrs ((ds.filter FDecl.hasSet).map (fun d => "Set" ++ pascalS d.name))
   let tyOfAcc := fun (pn : String) => ((ds.find? (fun d => pascalS d.name == pn)).map (·.ty)).getD (.basic "int")
@@ -406,6 +414,8 @@ structure Input where
   fns : List Fn := []
   mapperPtr : Option Bool := none  -- none: no mapper type embedded; some p: embedded by value / by pointer
   conv : List (Ty × Ty) := []
+  manualW : List String := []      -- field paths assigned in the body of the manual write hook (toX/writeX): pre-claimed
+  manualR : List String := []      -- … of the manual read hook (fromX/readX)
   deriving Repr, Inhabited
 
 /-- `g.exportedFields` after makeCompatible: exported flattened fields, then getters, then setters -/
@@ -430,8 +440,8 @@ def plan (inp : Input) : Plan :=
   let ds := sideFields inp.dest inp.destNew
   let nm := inp.nm
   -- makeCtorMatch: destination ctor against source fields (tag map), source ctor against destination fields (no tag map)
-  let c1 := ctorMatch inp.conv inp.fns nm fs (sideParams inp.dest inp.destNew) []
-  let c2 := ctorMatch inp.conv inp.fns (canNameMatch [] inp.ic) ds (sideParams inp.src inp.srcNew) []
+  let c1 := ctorMatch inp.conv inp.fns nm fs (sideParams inp.dest inp.destNew) inp.manualW
+  let c2 := ctorMatch inp.conv inp.fns (canNameMatch [] inp.ic) ds (sideParams inp.src inp.srcNew) inp.manualR
   let st := planFields inp.conv inp.fns (pairs nm fs ds) { wD := c1.1, wS := c2.1 }
   { srcFields := fs, destFields := ds, st := st, destCtor := c1.2, srcCtor := c2.2 }
 
@@ -455,12 +465,17 @@ def coveredBy (f : Field) (p : List String) : Bool :=
 
 def joinPath (p : List String) : String := ".".intercalate p
 
-def insertPath (x : List String) : List (List String) → List (List String)
-  | [] => [x]
-  | y :: ys => if joinPath x < joinPath y then x :: y :: ys else y :: insertPath x ys
+/-- the bytes of the dotted path string -/
+def strCodes (s : String) : List Nat := s.toList.map Char.toNat
 
-/-- `sort.Strings` of the dotted paths -/
-def sortPaths (xs : List (List String)) : List (List String) := xs.foldr insertPath []
+def pathCodes : List String → List Nat
+  | [] => []
+  | c :: cs => match cs with
+    | [] => strCodes c
+    | _ => strCodes c ++ 46 :: pathCodes cs
+
+/-- `sort.Strings` of the dotted paths: byte-wise lexicographic order (insertion sort; any correct sort gives the same list) -/
+def sortPaths (xs : List (List String)) : List (List String) := MapSort.isort pathCodes xs
 
 /-- `nilCheckWrite` for one side: every pointer path covering a written promoted field, once, sorted -/
 def allocPaths (pp : List (List String)) (fields : List Field) (written : Field → Bool) : List (List String) :=
